@@ -267,6 +267,32 @@ theorem runSame_shrinks_text_ne (h : Nat) (rule : Bool → Bool) (k0 : KSt) (f :
   rw [e] at this
   exact Nat.lt_irrefl _ this
 
+/-- along a run of one handler, if every body makes the text longer (a typed character inserted at one or
+    more cursors), the text after the run differs from the text before it -/
+theorem runSame_grows_text_ne (h : Nat) (rule : Bool → Bool) (k0 : KSt) (f : Buf → Buf)
+    (fs : List (Buf → Buf)) (hgrow : ∀ g ∈ f :: fs, ∀ b, b.text.length < (g b).text.length) :
+    (runSame h rule (f :: fs) k0).st.buf.text ≠ k0.st.buf.text := by
+  have hlen : ∀ (gs : List (Buf → Buf)) (k : KSt), (∀ g ∈ gs, ∀ b, b.text.length < (g b).text.length) →
+      k.st.buf.text.length ≤ (runSame h rule gs k).st.buf.text.length := by
+    intro gs
+    induction gs with
+    | nil => intro k _; exact Nat.le_refl _
+    | cons g gs ih =>
+      intro k hg
+      have h1 := ih (callHandler h rule [Act.edit g] k) (fun g' hg' => hg g' (List.mem_cons_of_mem _ hg'))
+      have h2 : k.st.buf.text.length < (callHandler h rule [Act.edit g] k).st.buf.text.length := by
+        simp only [callHandler_eq, List.foldl_cons, List.foldl_nil, act, boundary_buf]
+        exact hg g (by simp) _
+      exact Nat.le_trans (Nat.le_of_lt h2) h1
+  intro e
+  have h1 := hlen fs (callHandler h rule [Act.edit f] k0) (fun g hg => hgrow g (List.mem_cons_of_mem _ hg))
+  have h2 : k0.st.buf.text.length < (callHandler h rule [Act.edit f] k0).st.buf.text.length := by
+    simp only [callHandler_eq, List.foldl_cons, List.foldl_nil, act, boundary_buf]
+    exact hgrow f (by simp) _
+  have : k0.st.buf.text.length < (runSame h rule (f :: fs) k0).st.buf.text.length := Nat.lt_of_lt_of_le h2 h1
+  rw [e] at this
+  exact Nat.lt_irrefl _ this
+
 theorem deleteBefore_len_le (n : Nat) (b : Buf) : (deleteBefore n b).text.length ≤ b.text.length := by
   simp only [deleteBefore, List.length_append, List.length_take, List.length_drop]; omega
 
